@@ -82,6 +82,14 @@ class Ctx:
                 # the interpreter died under the library: a violation in its own
                 # right (confirmed from a fresh process like every other one)
                 raise WorkerCrashed(mod or self.mod, fn, a, r, pool.env)
+            if isinstance(r, dict) and r.get('viol'):
+                # remember which worker call reported it: a violation that only
+                # shows after the earlier cases of the same call (state the
+                # library carried over between cases) is confirmed by
+                # re-issuing the whole call in a fresh process
+                for v in r['viol']:
+                    if isinstance(v, dict):
+                        v.setdefault('_origin', (mod or self.mod, fn, a))
         return res
 
     def close(self):
@@ -152,11 +160,15 @@ def _replay_call(p, mod, case):
         rc = case['raw_call']
         arg = pickle.loads(base64.b64decode(rc['arg_pickle_b64']))
         try:
-            r = p.call(mod, rc['fn'], arg)
+            r = p.call(rc.get('mod') or mod, rc['fn'], arg)
         except LibraryRaised as e:
             return dict(library_raised=e.typ, traceback_tail=e.tb[-1500:])
         if isinstance(r, Crash):
             return dict(interpreter_crashed=r.returncode, stderr_tail=r.stderr_tail[-1500:])
+        if case.get('expect_sig') and isinstance(r, dict):
+            for v in r.get('viol') or ():
+                if v.get('sig') == case['expect_sig']:
+                    return dict(reported_again=v.get('detail'))
         return None
     return p.call(mod, 'replay', case)
 
@@ -211,6 +223,20 @@ def finish(ctx, level, explanation, rule, trusted=None):
         if isinstance(r, Crash):
             if not v.get('crash'):
                 raise InternalError('replay of %s crashed the worker: %r' % (sig, r))
+        elif not r and v.get('_origin'):
+            # not on its own: together with the cases that preceded it in the
+            # same worker call?
+            omod, ofn, oarg = v['_origin']
+            whole = dict(raw_call=dict(mod=omod, fn=ofn, arg_pickle_b64=base64.b64encode(
+                pickle.dumps(oarg, protocol=4)).decode()), expect_sig=sig, single_case=v['case'],
+                note='does not show when the case runs alone in a fresh process: it needs the cases '
+                     'that the same worker call evaluated before it (state carried over inside the library)')
+            v2 = dict(v, case=whole)
+            if not confirm(ctx, v2):
+                raise InternalError(
+                    'violation did not reproduce from a fresh process: %s %r'
+                    % (sig, v['case']))
+            v['case'] = whole
         elif not r:
             raise InternalError(
                 'violation did not reproduce from a fresh process: %s %r'
